@@ -35,6 +35,9 @@ CORPUS = ["select -'x'", 'select -NULL', 'CREATE SKILL s USING a=1', "CREATE KNO
           'select a from t limit true', 'select a from t limit 1 offset true', 'select a from t limit 1e3', 'select a from t limit 0x10',
           'select a from t order by 1.5', 'select a from t group by null', 'select cast(a as 1) from t', 'select a from t limit (1)',
           'select a from t limit 1 + 1', 'select a from t limit @v', 'select a from t limit ?', 'select a from t offset 1.5',
+          "CREATE VIEW v AS (\n  select a\n\n  from t\n)", "select * from int1 (select a\n\n   from x\n where b = 1)",
+          "create view v from pg (select 1\n  -- only a comment\n  from t)", "CREATE MODEL m FROM db (select a,\n\n\n b from t) PREDICT b",
+          "create job j (select 1\n\n; select 2)", "create trigger tr on db.t (select 1\n\n from t)", "select * from int1 ((select 1) union (select 2))",
           "CREATE MODEL m PREDICT", "CREATE JOB j", "CREATE TRIGGER t ON", "EVALUATE x FROM", "RETRAIN", "CREATE DATABASE d WITH"]
 
 
@@ -90,8 +93,16 @@ def run(tier, seed, replay=None):
             k = f'{d}:code{r["code"]}'
             stats[k] = stats.get(k, 0) + 1
             if r['code'] in (5, 10):
-                site = r['exc'].split(':')[0]
-                internal.setdefault((site, 'token-level'), (d, tokens_text(toks), r['exc']))
+                # the engine-level run only sees the class; the raising function is taken from parse_sql on the same text
+                txt_ = tokens_text(toks)
+                key_ = (r['exc'].split(':')[0], 'token-level')
+                try:
+                    parse_sql(txt_, d)
+                except (ParsingException, LexError):
+                    pass
+                except Exception as e_:
+                    key_ = (type(e_).__name__, site_of(e_))
+                internal.setdefault(key_, (d, txt_, r['exc']))
             texts_extra.append((d, tokens_text(toks)))
         # engine correspondence (same comparison as C05) -- also proves the model needed no more than its fuel
         names = []
